@@ -128,35 +128,42 @@ def _latidx(cfg, xyu):
     return [x, u] if lat_dim(cfg) == 1 else [x, y, u]
 
 
-def apply_declaration(model, cfg, d, ints=False):
-    """One add_* call on a CouplingModel for declaration record `d` of the specification."""
+def apply_declaration(model, cfg, d, ints=False, scale=1.0):
+    """One add_* call on a CouplingModel for declaration record `d` of the specification.
+    scale: all strengths are multiplied by this power of two (H is linear in them; small couplings exercise cutoffs)."""
     kind = d['kind']
     dim = lat_dim(cfg)
+    if scale != 1.0:
+        ints = False
+        sv = lambda s_, dim_, ints_=False: strength_value(s_, dim_) * scale
+        gn = lambda z: gnum(z) * scale
+    else:
+        sv, gn = strength_value, gnum
     if kind == 'onsite':
-        model.add_onsite(strength_value(d['s'], dim, ints), d['u'], d['op'], plus_hc=d['hc'])
+        model.add_onsite(sv(d['s'], dim, ints), d['u'], d['op'], plus_hc=d['hc'])
     elif kind == 'coupling':
         (op1, dx1, u1), (op2, dx2, u2) = d['ops']
         if any(dx1):
             raise core.MachineryError('first operator of a coupling must have dx = 0')
         op_string = None if d['str'] == 'auto' else d['str']
-        model.add_coupling(strength_value(d['s'], dim), u1, op1, u2, op2, _dx(cfg, dx2), op_string=op_string,
+        model.add_coupling(sv(d['s'], dim), u1, op1, u2, op2, _dx(cfg, dx2), op_string=op_string,
                            plus_hc=d['hc'])
     elif kind == 'multi':
         ops = [(op, _dx(cfg, dx), u) for op, dx, u in d['ops']]
-        model.add_multi_coupling(strength_value(d['s'], dim), ops, plus_hc=d['hc'], switchLR=str(d.get('sw', 'middle_i')))
+        model.add_multi_coupling(sv(d['s'], dim), ops, plus_hc=d['hc'], switchLR=str(d.get('sw', 'middle_i')))
     elif kind == 'expdecay':
-        strength = gnum(d['s0']) * float(d['lamInv'] ** d['dmax'])
+        strength = gn(d['s0']) * float(d['lamInv'] ** d['dmax'])
         subs = list(d['subs']) if d['subs'] else None
         model.add_exponentially_decaying_coupling(strength, gnum(d['lam']) / d['lamInv'], d['opi'], d['opj'], subsites=subs,
                                                   plus_hc=d['hc'])
     elif kind == 'expcenter':
-        strength = gnum(d['s0']) * float(d['lamInv'] ** d['dmax'])
+        strength = gn(d['s0']) * float(d['lamInv'] ** d['dmax'])
         subs = list(d['subs']) if d['subs'] else None
         model.add_exponentially_decaying_centered_terms(strength, gnum(d['lam']) / d['lamInv'], d['opi'], d['opj'], int(d['i0']),
                                                         subsites=subs, plus_hc=d['hc'])
     elif kind == 'local':
         term = [(op, _latidx(cfg, xyu)) for op, xyu in d['term']]
-        model.add_local_term(gnum(d['s']), term, plus_hc=d['hc'])
+        model.add_local_term(gn(d['s']), term, plus_hc=d['hc'])
     else:
         raise core.MachineryError('unknown declaration kind %r' % kind)
 
@@ -173,8 +180,9 @@ def model_classes():
         def init_terms(self, model_params):
             cfg = model_params.get('verif_cfg', None)
             ints = model_params.get('verif_ints', False)
+            scale = model_params.get('verif_scale', 1.0)
             for d in model_params.get('verif_decls', []):
-                apply_declaration(self, cfg, d, ints)
+                apply_declaration(self, cfg, d, ints, scale)
 
     class DeclNNModel(DeclModel, NearestNeighborModel):
         pass
@@ -185,7 +193,8 @@ def model_classes():
 _CLASSES = None
 
 
-def build_model(cfg, decls, explicit_plus_hc=False, conserve=None, nn=False, sort_mpo_legs=False, int_strengths=False):
+def build_model(cfg, decls, explicit_plus_hc=False, conserve=None, nn=False, sort_mpo_legs=False, int_strengths=False,
+                scale=1.0):
     """The real model for (lattice configuration, declarations) with the given representation options."""
     global _CLASSES
     if _CLASSES is None:
@@ -193,7 +202,7 @@ def build_model(cfg, decls, explicit_plus_hc=False, conserve=None, nn=False, sor
     sites = make_unit_cell(list(cfg['uc']), conserve)
     lat = make_lattice(cfg, sites)
     params = dict(lattice=lat, verif_cfg=cfg, verif_decls=list(decls), explicit_plus_hc=explicit_plus_hc,
-                  sort_mpo_legs=sort_mpo_legs, verif_ints=bool(int_strengths))
+                  sort_mpo_legs=sort_mpo_legs, verif_ints=bool(int_strengths), verif_scale=float(scale))
     cls = _CLASSES[1] if nn else _CLASSES[0]
     with warnings.catch_warnings():
         warnings.simplefilter('ignore')
